@@ -112,9 +112,19 @@ def h_lrtdp(sk, shuffle, slack_mode, tied, iterations=50, gamma='sym'):
         else:
             hval[s] = W[s] + S.real('slack_%s' % (s,), 0, None)
     uses = []
+    # the model hands out its action collections as LISTS, one shared list object per distinct action set (as QuickTabularMDP(actions=[...]) does):
+    # a planner must not reorder the model's own lists in place
+    shared_lists = {}
+    base_actions = mdp.actions
+
+    def actions_as_shared_lists(s_):
+        t_ = tuple(base_actions(s_))
+        return shared_lists.setdefault(t_, list(t_))
+    mdp.actions = actions_as_shared_lists
     with facades(uses, 60):
         planner = lr.LRTDP(heuristic=lambda s: hval[s], bellman_error_margin=eps, iterations=iterations, randomize_action_order=shuffle, seed=9)
         res = planner.plan_on(mdp)
+        S.check('frame:the-action-lists-handed-out-by-the-model-are-not-reordered-in-place', S.truth(all(tuple(l_) == t_ for t_, l_ in shared_lists.items())))
         # liveness needs a fair generator (a demonic one may never sample some initial state): the flag is checked as a safety property,
         # and on single-start skeletons (no unfair history exists) convergence itself is required
         conv = res.converged
